@@ -20,15 +20,54 @@ prop_info(
     not_decided='equality of accept/reject behaviour on probe values, subset soundness of limits, grid rounding of scaled limits.')
 
 
+def _as_lambda(m, mod, v):
+    """a table entry as a lambda: a lambda itself, or a module level function whose body is one return statement"""
+    if isinstance(v, ast.Lambda):
+        return v
+    if isinstance(v, ast.Name):
+        g = m.functions.get(f'{mod.name}.{v.id}')
+        if g is not None and isinstance(g.node, ast.FunctionDef):
+            body = [st for st in g.node.body if not (isinstance(st, ast.Expr) and isinstance(st.value, ast.Constant))]
+            if len(body) == 1 and isinstance(body[0], ast.Return) and body[0].value is not None:
+                lam = ast.Lambda(args=g.node.args, body=body[0].value)
+                ast.copy_location(lam, g.node)
+                lam.parent = getattr(g.node, 'parent', None)
+                return lam
+    return None
+
+
 def _datatypes_table(m):
+    """the rebuild table DATATYPES: {type name: lambda}; a dict literal, or a table generated from named builder functions
+    (`{f.__name__[len('_build_'):]: f for f in (_build_bool, ...)}`)"""
     mod = m.modules.get(DT)
     expr = mod.consts.get('DATATYPES') if mod else None
-    if not isinstance(expr, ast.Dict):
-        raise AnchorMissing('DATATYPES dict literal not found in frappy/datatypes.py')
     res = {}
-    for k, v in zip(expr.keys, expr.values):
-        if isinstance(k, ast.Constant) and isinstance(v, ast.Lambda):
-            res[k.value] = v
+    if isinstance(expr, ast.Dict):
+        for k, v in zip(expr.keys, expr.values):
+            lam = _as_lambda(m, mod, v)
+            if isinstance(k, ast.Constant) and lam is not None:
+                res[k.value] = lam
+    elif isinstance(expr, ast.DictComp) and len(expr.generators) == 1 and isinstance(expr.generators[0].iter, (ast.Tuple, ast.List)) \
+            and isinstance(expr.generators[0].target, ast.Name) and isinstance(expr.value, ast.Name) and expr.value.id == expr.generators[0].target.id:
+        var = expr.generators[0].target.id
+        k = expr.key
+        prefix = None
+        if isinstance(k, ast.Subscript) and src(k.value) == f'{var}.__name__' and isinstance(k.slice, ast.Slice) and k.slice.upper is None:
+            lo = k.slice.lower
+            if isinstance(lo, ast.Call) and dotted(lo.func) == 'len' and lo.args and isinstance(lo.args[0], ast.Constant):
+                prefix = lo.args[0].value
+            elif isinstance(lo, ast.Constant) and isinstance(lo.value, int):
+                prefix = lo.value
+        elif isinstance(k, ast.Call) and call_attr(k) == 'removeprefix' and src(k.func.value) == f'{var}.__name__' and k.args and isinstance(k.args[0], ast.Constant):
+            prefix = k.args[0].value
+        if prefix is not None:
+            for e in expr.generators[0].iter.elts:
+                lam = _as_lambda(m, mod, e)
+                if isinstance(e, ast.Name) and lam is not None:
+                    n = len(prefix) if isinstance(prefix, str) else prefix
+                    res[e.id[n:]] = lam
+    if not res:
+        raise AnchorMissing('DATATYPES table (dict literal / generated from builder functions) not found in frappy/datatypes.py')
     return mod, res
 
 
@@ -44,6 +83,12 @@ def _floatargs_keys(m, mod):
             return {e.value for e in n.elts if isinstance(e, ast.Constant)}
     # the key set may live in a module level constant (frozenset({...}) / set / tuple)
     for n in body_walk(fa.node):
+        if isinstance(n, ast.comprehension) and isinstance(n.iter, ast.Name) and n.iter.id in mod.consts:
+            e = mod.consts.get(n.iter.id)
+            if isinstance(e, ast.Call) and e.args:
+                e = e.args[0]
+            if isinstance(e, (ast.Set, ast.Tuple, ast.List)):
+                return {x.value for x in e.elts if isinstance(x, ast.Constant)}
         if isinstance(n, ast.Compare) and any(isinstance(o, ast.In) for o in n.ops) and isinstance(n.comparators[0], ast.Name):
             e = mod.consts.get(n.comparators[0].id)
             if isinstance(e, ast.Call) and e.args:
@@ -367,30 +412,39 @@ def int_range_into_enum_checks_every_value(ctx):
     m = ctx.m
     f = m.method(f'{DT}.IntRange', 'compatible', inherited=False)
     ctx.analysed(f)
-    branches = [n for n in body_walk(f.node) if isinstance(n, ast.If) and 'EnumType' in src(n.test) and 'isinstance' in src(n.test)]
-    if not branches:
-        raise AnchorMissing('enum branch of IntRange.compatible not found')
+    cfg = CFG(f.node, m, f.module)
     p = f.node.args.args[1].arg
-    for n in branches:
-        full = False
-        for loop in [x for st in n.body for x in walk_local(st) if isinstance(x, ast.For)]:
-            it = loop.iter
-            if isinstance(it, ast.Call) and dotted(it.func) == 'range' and len(it.args) == 2 and src(it.args[0]) == 'self.min' and \
-                    src(it.args[1]).replace(' ', '') in ('self.max+1', '1+self.max'):
-                lv = src(loop.target)
-                if any(isinstance(c.func, ast.Name) and c.func.id == p and c.args and src(c.args[0]) == lv for c in calls_in(loop)):
-                    full = True
-        calls = [c for st in n.body for c in calls_in(st) if (isinstance(c.func, ast.Name) and c.func.id == p) or
-                 (isinstance(c.func, ast.Attribute) and dotted(c.func.value) == p and c.func.attr in ('validate', '__call__', 'import_value'))]
-        endpoints_only = bool(calls) and all(c.args and src(c.args[0]) in ('self.min', 'self.max') for c in calls)
-        construct = f'{f.qualname}:every integer of the range is checked against the enum'
-        if full:
-            ctx.ok(construct, n, 'for i in range(self.min, self.max + 1): other(i)', f)
-        elif endpoints_only:
-            ctx.bad(construct, n, 'only the limits of the range are offered to the enum / bool target: an enum with gaps whose limits are '
-                    'members (IntRange(0, 2) into EnumType(a=0, c=2)) is declared compatible although 1 is not a member', f)
-        else:
-            ctx.undecided(construct, n, 'form of the membership check not recognised', f)
+
+    def is_enum(a, tv):
+        return tv and isinstance(a, ast.Call) and dotted(a.func) == 'isinstance' and len(a.args) == 2 and src(a.args[0]) == p and 'EnumType' in src(a.args[1])
+
+    def not_enum(a, tv):
+        return not tv and isinstance(a, ast.Call) and dotted(a.func) == 'isinstance' and len(a.args) == 2 and src(a.args[0]) == p and 'EnumType' in src(a.args[1])
+    if not any(isinstance(x, ast.Call) and dotted(x.func) == 'isinstance' and 'EnumType' in src(x) for x in body_walk(f.node)):
+        raise AnchorMissing('enum branch of IntRange.compatible not found')
+    enum_side = sides_with_fact(cfg, is_enum)
+    other_side = sides_with_fact(cfg, not_enum)
+    full = []
+    for loop in [x for x in body_walk(f.node) if isinstance(x, ast.For)]:
+        it = loop.iter
+        if isinstance(it, ast.Call) and dotted(it.func) == 'range' and len(it.args) == 2 and src(it.args[0]) == 'self.min' and \
+                src(it.args[1]).replace(' ', '') in ('self.max+1', '1+self.max'):
+            lv = src(loop.target)
+            if any(isinstance(c.func, ast.Name) and c.func.id == p and c.args and src(c.args[0]) == lv for c in calls_in(loop)) and \
+                    not (set(cfg.ids(loop)) & other_side):
+                full.append(loop)
+    calls = [c for c in calls_in(f.node) if ((isinstance(c.func, ast.Name) and c.func.id == p) or
+             (isinstance(c.func, ast.Attribute) and dotted(c.func.value) == p and c.func.attr in ('validate', '__call__', 'import_value')))
+             and set(cfg.node_of(c)) and set(cfg.node_of(c)) <= enum_side]
+    endpoints_only = bool(calls) and all(c.args and src(c.args[0]) in ('self.min', 'self.max') for c in calls)
+    construct = f'{f.qualname}:every integer of the range is checked against the enum'
+    if full:
+        ctx.ok(construct, full[0], 'for i in range(self.min, self.max + 1): other(i)', f)
+    elif endpoints_only:
+        ctx.bad(construct, calls[0], 'only the limits of the range are offered to the enum / bool target: an enum with gaps whose limits are '
+                'members (IntRange(0, 2) into EnumType(a=0, c=2)) is declared compatible although 1 is not a member', f)
+    else:
+        ctx.undecided(construct, f.node, 'form of the membership check not recognised', f)
 
 
 def _ctor_none_mapping(m, ci, pname):
@@ -464,6 +518,78 @@ def omitted_key_means_the_property_default(ctx):
                     ctx.ok(construct, lam, f'None is mapped to `{src(how[1])}` independently of the other arguments', ed)
             else:
                 ctx.undecided(construct, lam, f'default `{src(dflt)}` can not be compared with the property default', ed)
+
+
+@rule('C03.R1d', min_instances=1)
+def struct_states_an_empty_optional_list(ctx):
+    """StructOf.export_datatype: the key 'optional' may be left out only when ALL members are optional (that is what an
+    omitted key means on the rebuild side).  `optional = []` - no member may be left out - is a value that has to be stated:
+    the store of the key must not sit behind a truthiness test of the list"""
+    m = ctx.m
+    ci = m.cls(f'{DT}.StructOf')
+    f = ci.methods.get('export_datatype')
+    if f is None:
+        raise AnchorMissing('StructOf.export_datatype not found')
+    ctx.analysed(f)
+    cfg = CFG(f.node, m, f.module)
+    stores = [x for x in body_walk(f.node) if isinstance(x, ast.Subscript) and isinstance(x.ctx, ast.Store) and isinstance(x.slice, ast.Constant) and x.slice.value == 'optional']
+    stores += [k for d in body_walk(f.node) if isinstance(d, ast.Dict) for k in d.keys if isinstance(k, ast.Constant) and k.value == 'optional']
+    if not stores:
+        raise AnchorMissing("store of the key 'optional' not found in StructOf.export_datatype", violation=f'{f.qualname}:optional is exported')
+
+    def optional_list(e):
+        if isinstance(e, ast.Attribute) and e.attr == 'optional':
+            return True
+        if isinstance(e, ast.Name):
+            for o in origins(e, f.node):
+                if 'optional' in src(o):
+                    return True
+        return False
+    by_truth = sides_with_fact(cfg, lambda a, tv: tv and optional_list(a))
+    for st in stores:
+        stmt = next((a for a in ancestors(st) if isinstance(a, ast.stmt)), None)
+        ids = set(cfg.ids(stmt)) if stmt is not None else set()
+        ctx.check(not (ids & by_truth), f'{f.qualname}:an empty optional list is stated', st, 'not behind a truthiness test of the list',
+                  "the key 'optional' is exported only when the list is non-empty: a struct whose members are ALL mandatory (optional == []) is described "
+                  "without the key, which the rebuild side reads as 'all members optional' - the described type accepts partial structs the node refuses", f)
+
+
+@rule('C03.R1e', min_instances=1)
+def rebuild_passes_falsy_property_values_on(ctx):
+    """floatargs (the helper that forwards unit / fmtstr / absolute_resolution / relative_resolution from a description to the
+    constructor) selects the keys by PRESENCE: a description that states `relative_resolution: 0.0` or `absolute_resolution: 0`
+    rebuilds a type with that resolution - a filter on the truth of the value drops exactly these, and the rebuilt type (and
+    every copy(), which goes through the description) falls back to the default tolerance"""
+    m = ctx.m
+    fa = m.functions.get(f'{DT}.floatargs')
+    if fa is None:
+        raise AnchorMissing('frappy.datatypes.floatargs not found')
+    ctx.analysed(fa)
+    prm = fa.node.args.args[0].arg if fa.node.args.args else 'kwds'
+    n = 0
+    for comp in [x for x in ast.walk(fa.node) if isinstance(x, ast.comprehension)]:
+        n += 1
+        tgt = {x.id for x in ast.walk(comp.target) if isinstance(x, ast.Name)}
+        for cond in comp.ifs:
+            from sa.rules.common import _truthiness_operands
+            bad = []
+            for op in [cond] if isinstance(cond, (ast.Name, ast.Call, ast.Subscript)) else []:
+                bad.append(op)
+            for x in ast.walk(cond):
+                if isinstance(x, ast.BoolOp):
+                    bad += [v for v in x.values if isinstance(v, (ast.Name, ast.Call, ast.Subscript))]
+                if isinstance(x, ast.UnaryOp) and isinstance(x.op, ast.Not) and isinstance(x.operand, (ast.Name, ast.Call, ast.Subscript)):
+                    bad.append(x.operand)
+            # a value test: kwds.get(k) / kwds[k] / the value variable of `for k, v in kwds.items()`
+            valtests = [b for b in bad if (isinstance(b, ast.Call) and call_attr(b) == 'get' and src(b.func.value) == prm) or
+                        (isinstance(b, ast.Subscript) and src(b.value) == prm) or
+                        (isinstance(b, ast.Name) and b.id in tgt and isinstance(comp.target, ast.Tuple) and b.id == src(comp.target.elts[-1]))]
+            ctx.check(not valtests, f'{fa.qualname}:keys are selected by presence', cond, f'`if {src(cond)}`',
+                      f'`if {src(cond)}` drops a float property whose VALUE is falsy: `relative_resolution: 0.0` / `absolute_resolution: 0` stated in a description '
+                      'are not passed to the constructor - the rebuilt type (on a client, in copy(), in Parameter clones) accepts values within the DEFAULT '
+                      'tolerance of the limits that the original refuses', fa)
+    if not n:
+        ctx.undecided(f'{fa.qualname}:keys are selected by presence', fa.node, 'no comprehension found', fa)
 
 
 @rule('C03.R2b', min_instances=1)
@@ -585,10 +711,7 @@ def compatibility_verdicts_refuse(ctx):
             neg = isinstance(a, ast.UnaryOp) and isinstance(a.op, ast.Not)
             core = a.operand if neg else a
             if isinstance(core, ast.Call) and dotted(core.func) == 'isinstance' and core.args and src(core.args[0]) == o:
-                if neg:
-                    ctx.check(side_never_completes(cfg, t.id, 'T'), f'{f.qualname}:foreign kind is refused', a, f'`{src(a)}` raises',
-                              f'`{src(a)}`: the branch for a foreign datatype does not raise - {name} is declared compatible with any datatype', f)
-                continue
+                continue        # kind dispatch: decided below (2)
             lims = []
             for sub in (a.values if isinstance(a, ast.BoolOp) else [a]):
                 for l, op, r in compare_ops(sub):
@@ -617,14 +740,27 @@ def compatibility_verdicts_refuse(ctx):
             if isinstance(a, ast.Name) and any(isinstance(v, ast.BinOp) and o in src(v) for v, st, how in local_assigns(f.node, a.id) if v is not None):
                 ctx.check(side_never_completes(cfg, t.id, 'T'), f'{f.qualname}:remaining mandatory members are refused', a, f'`if {a.id}:` raises',
                           f'`if {a.id}:` does not raise: a struct lacking members that are mandatory in the other type is declared compatible', f)
-        # (2) positive isinstance dispatch: no normal exit without passing one of the tests on its true side
-        pos = [t for t in cfg.nodes if t.kind == 'test' and isinstance(t.ast, ast.Call) and dotted(t.ast.func) == 'isinstance'
-               and t.ast.args and src(t.ast.args[0]) == o]
-        if pos:
-            tsucc = {b for t in pos for b, lab in cfg.succ[t.id] if lab == 'T'}
-            r = cfg.reach([cfg.entry], avoid=tsucc, exc=False)
-            ctx.check(cfg.exit not in r, f'{f.qualname}:foreign kind is refused', pos[0].ast, 'every normal exit lies behind an isinstance test of other',
+        # (2) kind dispatch: no normal exit without having passed some isinstance test of `other` on its ACCEPTING side (the true
+        # side of `isinstance(other, K)`, the false side of `not isinstance(other, K)`; one test, nested tests, guard clauses)
+        def kind_ok(a, tv):
+            return tv and isinstance(a, ast.Call) and dotted(a.func) == 'isinstance' and len(a.args) == 2 and src(a.args[0]) == o
+        kind_tests = [t for t in cfg.nodes if t.kind == 'test' and isinstance(t.ast, ast.expr) and
+                      any(isinstance(x, ast.Call) and dotted(x.func) == 'isinstance' and x.args and src(x.args[0]) == o for x in ast.walk(t.ast))]
+        if kind_tests:
+            ctx.check(paths_need_fact(cfg, [cfg.entry], [cfg.exit], kind_ok), f'{f.qualname}:foreign kind is refused', kind_tests[0].ast,
+                      'every normal exit lies behind an isinstance test of other, passed on its accepting side',
                       'a path on which every isinstance test of `other` failed reaches a normal exit: any datatype is declared compatible', f)
+            # a dense (float like) type is never compatible with a discrete one: not every value between two whole-number limits
+            # is an integer / an enum member
+            if name in ('FloatRange', 'ScaledInteger'):
+                for t in kind_tests:
+                    for x in ast.walk(t.ast):
+                        if isinstance(x, ast.Call) and dotted(x.func) == 'isinstance' and len(x.args) == 2 and src(x.args[0]) == o:
+                            kinds = {n.id for n in ast.walk(resolved(x.args[1], f.node)) if isinstance(n, ast.Name)}
+                            discrete = kinds & {'IntRange', 'EnumType', 'BoolType'}
+                            ctx.check(not discrete, f'{f.qualname}:a discrete target is refused', x, f'accepted kinds {sorted(kinds)}',
+                                      f'`{src(x)}` lets {sorted(discrete)} pass as target of a {name}: only the two limits are offered to the target, and '
+                                      f'IntRange.validate accepts whole-number floats - {name}(0, 10) is declared compatible with IntRange(0, 10) although 0.5 is refused', f)
         # (3) attribute style: the AttributeError handler raises
         for h in [x for x in body_walk(f.node) if isinstance(x, ast.ExceptHandler)]:
             ctx.check(contains_raise(h.body) and isinstance(h.body[-1], ast.Raise), f'{f.qualname}:foreign kind is refused (handler)', h,
@@ -637,7 +773,10 @@ def compatibility_verdicts_refuse(ctx):
                                                     (isinstance(c.func, ast.Attribute) and dotted(c.func.value) == o and c.func.attr in ('validate', 'import_value')))
                     and c.args and src(c.args[0]) == f'self.{p}'] for p in ('min', 'max')}
         for p in sorted(props):
-            compared = f'self.{p}' in text and f'{o}.{p}' in text
+            # compared as they are: `self.min < other.min` - a comparison of converted values (grid indices of two scaled
+            # types with different scales) does not count
+            compared = any({l, r} == {f'self.{p}', f'{o}.{p}'} for t in cfg.nodes if t.kind == 'test' and isinstance(t.ast, ast.expr)
+                           for sub in (t.ast.values if isinstance(t.ast, ast.BoolOp) else [t.ast]) for l, op, r in compare_ops(sub))
             if p in ('min', 'max') and not compared:
                 # numeric kinds: the end point is offered to other on every accepting path (or every integer of the range is)
                 via = [i for c in ends[p] for i in cfg.node_of(c)]
@@ -672,6 +811,17 @@ def compatibility_verdicts_refuse(ctx):
             ctx.check(f'self.argument.compatible({o}.argument)' in calls and f'{o}.result.compatible(self.result)' in calls,
                       f'{f.qualname}:argument and result are checked in opposite directions', f.node, 'argument: self into other, result: other into self',
                       f'found {sorted(calls)}', f)
+            # ... and they are checked when the two sides DIFFER (the `!=` guard only skips the case "both None")
+            ccfg = CFG(f.node, m, f.module)
+
+            def same(a, tv):
+                return any((op == '==' and tv) or (op == '!=' and not tv) for l, op, r in compare_ops(a)
+                           if {l.rpartition('.')[2], r.rpartition('.')[2]} <= {'argument', 'result'} and l.rpartition('.')[2] == r.rpartition('.')[2])
+            only_when_equal = sides_with_fact(ccfg, same)
+            for c in [c for c in calls_in(f.node) if call_attr(c) == 'compatible']:
+                ctx.check(not (set(ccfg.node_of(c)) & only_when_equal), f'{f.qualname}:`{src(c)}` runs when the two types differ', c, 'not confined to the equal side',
+                          f'`{src(c)}` is only reached when argument / result of the two commands are EQUAL: commands with different argument or result types '
+                          'are declared compatible without being compared', f)
 
 
 @rule('C03.R2c', min_instances=4)
